@@ -757,17 +757,19 @@ package lua
 //@ noraise
 //@ modifies nothing
 
-// the position prefix of an error raised at level n is where(n - 1, true): level 1 = the function that raised it
+// the position prefix of an error raised at level n: level 1 = the function that raised it, level 2 = its caller, ... In
+// stack levels (0 = the running activation): n - 1 when the running function is a Lua function (run-time errors of the VM),
+// n when it is a host function (error(), a failing library function), whose own frame is level 0 and is not a position
 //@ func (*LState).raiseError [C03 C05 C17]
-//@ requires ls != nil && ls.reg != nil && Inv_reg(ls.reg) && Inv_api(ls) && uvsValid(ls)
-//@ assert@"if ls.reg.IsFull() {" level > 0 ==> ncalls() == old(ncalls()) + 1 && callfn(old(ncalls())) == fnid("(*LState).where") && callargInt(old(ncalls()), 1) == level - 1 && callargBool(old(ncalls()), 2)
+//@ requires ls != nil && ls.reg != nil && Inv_reg(ls.reg) && Inv_api(ls) && uvsValid(ls) && (ls.currentFrame != nil ==> ls.currentFrame.Fn != nil)
+//@ assert@"if ls.reg.IsFull() {" level > 0 ==> ncalls() == old(ncalls()) + 1 && callfn(old(ncalls())) == fnid("(*LState).where") && callargInt(old(ncalls()), 1) == ite(ls.currentFrame != nil && ls.currentFrame.Fn.IsG, level, level - 1) && callargBool(old(ncalls()), 2)
 // without format arguments the message is the given string itself (error values containing % are not re-formatted)
 //@ assert@"if level > 0 {" len(args) == 0 ==> message == format
 //@ cut@"ls.Panic(ls)" the panic function (a field of the state) takes over; what PCall's recovery does with it is PCall$1's contract
 //@ modifies ls.reg.array, ls.reg.top, ls.reg.array[*]
 
 //@ func (*LState).Error [C03 C05]
-//@ requires ls != nil && ls.reg != nil && Inv_reg(ls.reg) && Inv_api(ls) && uvsValid(ls) && lv != nil
+//@ requires ls != nil && ls.reg != nil && Inv_reg(ls.reg) && Inv_api(ls) && uvsValid(ls) && lv != nil && (ls.currentFrame != nil ==> ls.currentFrame.Fn != nil)
 // only a STRING error value gets a position prefix (through raiseError); every other value is raised as it is
 //@ assert@"ls.raiseError(level" isStr(lv)
 //@ assert@"ls.Push(lv)" !isStr(lv)
